@@ -225,6 +225,13 @@ Proof.
   - pose proof (Z.mod_pos_bound a b ltac:(lia)). pose proof (Z.mod_le a b H0 ltac:(lia)). lia.
 Qed.
 
+(* x % 2^k as a mask: the result is below the modulus whatever x is *)
+Lemma rng_mod_small W a b : (0 <? b) = true -> (b <=? 2 ^ W) = true -> rng W (w_mod a b).
+Proof.
+  intros Hb Hw. apply Z.ltb_lt in Hb. apply Z.leb_le in Hw. unfold w_mod, rng.
+  pose proof (Z.mod_pos_bound a b Hb). lia.
+Qed.
+
 (* tables *)
 Definition in_rngb (w v : Z) : bool := (0 <=? v) && (v <? 2 ^ w).
 Lemma in_rngb_ok w v : in_rngb w v = true -> rng w v.
@@ -349,7 +356,7 @@ Ltac solve_rng :=
   | |- rng ?W (w_xor ?a ?b) => apply rng_xor; solve_rng
   | |- rng ?W (w_shr ?a ?k) => apply rng_shr; [side_le | side_le | norm_w; solve_rng]
   | |- rng ?W (w_div ?a ?b) => apply rng_div; [solve_rng | side_le]
-  | |- rng ?W (w_mod ?a ?b) => apply rng_modop; [solve_rng | side_le]
+  | |- rng ?W (w_mod ?a ?b) => first [ apply rng_mod_small; [ vm_compute; reflexivity | vm_compute; reflexivity ] | apply rng_modop; [solve_rng | side_le] ]
   | |- rng ?W (b2z _) => apply rng_b2z; side_le
   | |- rng ?W (w_nth ?i ?l) => apply rng_nth; [vm_compute; reflexivity | side_le]
   | |- rng ?W (if ?c then _ else _) => case c; solve_rng
